@@ -179,11 +179,16 @@ type vPlan struct {
 }
 
 func vSchedRunPlans(c *vCtx, prop string, scns []vScn, quick, thorough []vPlan) {
+	vSchedRunBudget(c, prop, scns, quick, thorough, 40*time.Minute)
+}
+
+// vSchedRunBudget: as vSchedRunPlans with an explicit wall-clock budget for the thorough tier.
+func vSchedRunBudget(c *vCtx, prop string, scns []vScn, quick, thorough []vPlan, thoroughBudget time.Duration) {
 	plans := quick
 	budget := 30 * time.Minute
 	if c.thorough() {
 		plans = thorough
-		budget = 40 * time.Minute
+		budget = thoroughBudget
 	}
 	if f := os.Getenv("VERIF_SCN"); f != "" { // debugging aid: restrict to scenarios whose name contains f
 		var keep []vScn
